@@ -149,7 +149,7 @@ fn preused_decoder(
     k: usize,
     r: usize,
     size: usize,
-) -> Result<Box<dyn codec::DynDec>, reed_solomon_simd::Error> {
+) -> Result<Box<dyn codec::DynDec + Send>, reed_solomon_simd::Error> {
     let class = *rng.pick(&[Class::Tiny, Class::Small, Class::Edge, Class::Medium]);
     let (k0, r0) = gen::config(rng, class, rate);
     let size0 = *rng.pick(&[2usize, 64, 66, 130]);
